@@ -160,6 +160,47 @@ pub fn build_history_opts(spec: &HistorySpec, menu: &[Ty], relaxed: bool) -> Vec
     versions
 }
 
+/// a history whose fields can be positional (a tuple variant): fields are only ever appended at the end, none is
+/// removed or made transient by a step (positions would shift); every version's fields are named field0, field1, ...
+/// over all declared fields, as the derive macro names them
+pub fn build_history_positional(spec: &HistorySpec, menu: &[Ty]) -> Vec<Record> {
+    let mut sp = spec.clone();
+    for s in sp.steps.iter_mut() {
+        // (a step that finds no candidate falls back to FieldAdded: every step appends)
+        s.pos_sel = u16::MAX;
+        if matches!(s.kind, StepKind::Remove | StepKind::MakeTransient) {
+            s.kind = StepKind::MakeOptional;
+        }
+    }
+    let mut versions = build_history(&sp, menu);
+    let last = versions.last().unwrap().clone();
+    let rename = |n: &str| -> String { last.fields.iter().position(|f| f.name == n).map(|i| format!("field{i}")).unwrap_or_else(|| n.to_string()) };
+    for v in versions.iter_mut() {
+        for f in v.fields.iter_mut() {
+            f.name = rename(&f.name);
+        }
+        for st in v.steps.iter_mut() {
+            match st {
+                Step::Added { name, .. } | Step::MadeOptional { name } | Step::Removed { name } | Step::MadeTransient { name } => *name = rename(name),
+            }
+        }
+    }
+    versions
+}
+
+pub fn tuple_holder(name: &str, r: &Record) -> Arc<Decl> {
+    Arc::new(Decl {
+        name: name.to_string(),
+        body: DeclBody::Enum {
+            sorted: false,
+            variants: vec![
+                Variant { name: "Nil".into(), shape: Shape::Unit, transient: false, record: Record { fields: vec![], steps: vec![] } },
+                Variant { name: "Rec".into(), shape: Shape::Tuple, transient: false, record: r.clone() },
+            ],
+        },
+    })
+}
+
 #[derive(Clone, Debug, PartialEq, Eq)]
 pub enum ReadErr {
     FieldRemovedInSerializedVersion(String),
@@ -480,6 +521,9 @@ pub struct Batch {
     pub dedup_histories: Vec<bool>,
     /// families[n] = [E{n}A, E{n}B, E{n}C]
     pub families: Vec<Vec<Arc<Decl>>>,
+    /// tuple_histories[t][v]: enum `T{t}V{v}` = { Nil, Rec(<positional fields of version v>) } with the history on
+    /// the tuple variant (the macro's unnamed-field branches, across versions)
+    pub tuple_histories: Vec<Vec<Arc<Decl>>>,
     pub specials: Vec<Arc<Decl>>,
 }
 
@@ -497,6 +541,9 @@ impl Batch {
             if i < nh {
                 v.extend(self.histories[i].iter().cloned());
             }
+        }
+        for t in &self.tuple_histories {
+            v.extend(t.iter().cloned());
         }
         v
     }
@@ -589,7 +636,14 @@ pub fn compiled_batch(seed: u64, n_hist: usize, n_fam: usize) -> Batch {
             dedup_histories.push(with_dedup);
         }
     }
-    Batch { histories, dedup_histories, families, specials }
+    // tuple-variant histories (no nested declarations, no DeduplicatedString: they are read across versions)
+    let mut tuple_histories = Vec::new();
+    for t in 0..(n_hist / 3).max(4) {
+        let spec = draw(&hs, &mut r);
+        let versions = build_history_positional(&spec, &static_menu(false));
+        tuple_histories.push(versions.iter().enumerate().map(|(v, rec)| tuple_holder(&format!("T{t}V{v}"), rec)).collect());
+    }
+    Batch { histories, dedup_histories, families, tuple_histories, specials }
 }
 
 pub const QUICK_BATCH: (u64, usize, usize) = (20260928, 36, 12);
